@@ -13,6 +13,10 @@ from .facts import AnalysisBroken
 M32 = 0xFFFFFFFF
 
 
+
+class StackReset(AnalysisBroken):
+    """a handler assigns the stack base to the stack pointer: its effect is no longer relative to the depth it was entered with"""
+
 class Unknown(Exception):
     pass
 
@@ -684,6 +688,8 @@ class HandlerSym:
                 st.spoff = v[2]
                 st.minsp = min(st.minsp, st.spoff)
                 st.maxsp = max(st.maxsp, st.spoff)
+            elif v is not None and v[0] == 'ptr' and v[1] == 'sb':
+                raise StackReset('%s: the stack pointer is reset to the stack base (sp = sb%+d) at %s' % (fn.q, v[2], loc))
             else:
                 raise AnalysisBroken('%s: stack pointer assigned an untracked value at %s' % (fn.q, loc))
         elif lv == ('lv', 'dp'):
